@@ -10,7 +10,8 @@ rsync -a --exclude .git --exclude replays /verif/ $base/verif/
 cd $base/verif
 export CLEMATIS3_REPO=$base/repo
 res=$base/results.jsonl; : > $res
-for d in /verif/seeded/${SEEDED_GLOB:-C*_*}; do
+if [ -n "$SEEDED_LIST" ]; then dirs=$(for i in $SEEDED_LIST; do echo /verif/seeded/$i; done); else dirs=$(ls -d /verif/seeded/${SEEDED_GLOB:-C*_*}); fi
+for d in $dirs; do
   id=$(basename $d); prop=$(python3 -c "import json;print(json.load(open('$d/meta.json'))['property'])")
   git -C $base/repo checkout -q -- . ; git -C $base/repo clean -fdq -- clematis configs scripts
   if ! git -C $base/repo apply $d/patch.diff 2>/dev/null; then echo "{\"id\":\"$id\",\"applies\":false}" >> $res; echo "$id patch-does-not-apply"; continue; fi
